@@ -265,11 +265,21 @@ def r6(tree, prog, rep):
         g = build(fn)
         from ..astutil import callback_function
 
+        module_funcs = {n.name: n for n in tree.ast(D.file).body if isinstance(n, ast.FunctionDef)}
+
         def reports_loss(cb):
             f = callback_function(cb, fn, dict(D.methods))
+            if f is None and isinstance(cb, ast.Name):
+                f = module_funcs.get(cb.id)         # a module-level function, the manager handed over as an extra argument
             return f is not None and any(isinstance(x, ast.Call) and (dotted(x.func) or "").endswith("connector_connection_lost") for x in ast.walk(f))
-        reg = g.call_nodes(lambda c: isinstance(c.func, ast.Attribute) and c.func.attr in ("addCallback", "addBoth") and isinstance(c.func.value, ast.Call)
-                           and dotted(c.func.value.func) == "self.when_disconnected" and c.args and reports_loss(c.args[0]))
+
+        def on_disconnected(recv):
+            from ..astutil import resolve_local as _rl
+            if isinstance(recv, ast.Name):
+                recv = _rl(fn, recv)            # d = self.when_disconnected(); d.addCallback(..)
+            return isinstance(recv, ast.Call) and dotted(recv.func) == "self.when_disconnected"
+        reg = g.call_nodes(lambda c: isinstance(c.func, ast.Attribute) and c.func.attr in ("addCallback", "addBoth") and on_disconnected(c.func.value)
+                           and c.args and reports_loss(c.args[0]))
         ok = len(reg) == 1 and g.must_pass(reg)
     rep.check("C11.R6", "set_manager chains manager.connector_connection_lost on the connection's when_disconnected() observer "
               "(fires even if the connection was already lost when it got selected)", ok, site(fn, D.file) if fn else D.file, key="C11.R6:set_manager:lost-callback",
